@@ -52,3 +52,15 @@ Theorem iter_groups_are_classes layer :
   /\ filter (is_kind SBar) layer = filter (fun i => cls_eqb (model_class i) CSample) layer.
 Proof. repeat split; apply filter_ext; intros i; unfold model_class, is_kind; destruct (kind i); simpl; try reflexivity;
   destruct (is_even i); reflexivity. Qed.
+
+(* the front-end counts a node as a sampling point (one result column) exactly when the loop samples at it *)
+Theorem counted_iff_sampled d : counted_src d = cls_eqb (classify_src d) CSample.
+Proof. unfold counted_src, classify_src.
+  destruct (String.eqb_spec (d_name d) "measure") as [M|M].
+  - rewrite M. reflexivity.
+  - destruct (String.eqb (d_name d) "barrier").
+    + destruct (d_label d) as [l|]; cbn [is_some str_of andb].
+      * destruct (String.eqb (upper l) "SAMPLE_OBSERVABLES"); reflexivity.
+      * reflexivity.
+    + cbn [andb]. generalize (Nat.eqb (Nat.modulo (Nat.min (d_q0 d) (d_q1 d)) 2) 0). intros e.
+      destruct (Nat.eqb (d_nq d) 1), (Nat.eqb (d_nq d) 2), e; reflexivity. Qed.
